@@ -393,12 +393,21 @@ pub fn execute_submit_batch(
         }
     );
 
+    // The periods are not bounded by validation: refuse instead of overflowing.
+    let Some(next_batch_time) = env.block.time.seconds().checked_add(config.batch_period) else {
+        return Err(cosmwasm_std::StdError::generic_err("batch period is too large").into());
+    };
+    let Some(unbonding_end_time) = env
+        .block
+        .time
+        .seconds()
+        .checked_add(config.native_chain_config.unbonding_period)
+    else {
+        return Err(cosmwasm_std::StdError::generic_err("unbonding period is too large").into());
+    };
+
     // Create new pending batch
-    let new_pending_batch = Batch::new(
-        batch.id + 1,
-        Uint128::zero(),
-        env.block.time.seconds() + config.batch_period,
-    );
+    let new_pending_batch = Batch::new(batch.id + 1, Uint128::zero(), next_batch_time);
 
     // Save new pending batch
     BATCHES.save(deps.storage, new_pending_batch.id, &new_pending_batch)?;
@@ -437,10 +446,7 @@ pub fn execute_submit_batch(
 
     // Update batch status
     batch.expected_native_unstaked = Some(unbond_amount);
-    batch.update_status(
-        BatchStatus::Submitted,
-        Some(env.block.time.seconds() + config.native_chain_config.unbonding_period),
-    );
+    batch.update_status(BatchStatus::Submitted, Some(unbonding_end_time));
 
     BATCHES.save(deps.storage, batch.id, &batch)?;
 
